@@ -486,8 +486,11 @@ func calculateChanges(oldVals, newVals map[string]string) (add, remove []KV) {
 		}
 	}
 
+	// only the keys that are gone are removed, a key with a changed value is reported
+	// as add only, like a PUT on an existing key, because listeners remove by key,
+	// removing it after the add would drop the new value.
 	for k, v := range oldVals {
-		if val, ok := newVals[k]; !ok || v != val {
+		if _, ok := newVals[k]; !ok {
 			remove = append(remove, KV{
 				Key: k,
 				Val: v,
